@@ -22,6 +22,7 @@ import (
 //   3. correspondence: the Lean model's Merge on the same inputs has the same weight table and
 //      header as the real output (ids and table order are not compared; exact equality of the
 //      canonical outputs is only measured).
+// A last stream (c03_cli.go) observes the same oracle at the command line: pprof -proto a b ….
 
 func init() { register("C03", runC03) }
 
@@ -286,9 +287,47 @@ func parseAll(c *Ctx, canons []string) []*profile.Profile {
 			c.Res.HarnessError = "ParseCanon: " + err.Error()
 			return nil
 		}
+		c03PadCapacity(p)
 		ps = append(ps, p)
 	}
 	return ps
+}
+
+// c03PadCapacity gives every slice of an input profile spare capacity (more than its length),
+// as slices built by append or read by a decoder usually have: code that grows a result slice
+// out of an input's backing array (`append(in.X[len(in.X):], …)`, `in.X[:0]`) then really lands
+// in the input's memory, where the reachability check sees it.
+func c03PadCapacity(p *profile.Profile) {
+	p.SampleType = padCap(p.SampleType)
+	p.Sample = padCap(p.Sample)
+	p.Mapping = padCap(p.Mapping)
+	p.Location = padCap(p.Location)
+	p.Function = padCap(p.Function)
+	p.Comments = padCap(p.Comments)
+	for _, l := range p.Location {
+		l.Line = padCap(l.Line)
+	}
+	for _, s := range p.Sample {
+		s.Location = padCap(s.Location)
+		s.Value = padCap(s.Value)
+		for k, v := range s.Label {
+			s.Label[k] = padCap(v)
+		}
+		for k, v := range s.NumLabel {
+			s.NumLabel[k] = padCap(v)
+		}
+		for k, v := range s.NumUnit {
+			s.NumUnit[k] = padCap(v)
+		}
+	}
+}
+
+// padCap: same elements, capacity 2*len+2; nil stays nil (Canon distinguishes nothing else).
+func padCap[T any](s []T) []T {
+	if s == nil {
+		return nil
+	}
+	return append(make([]T, 0, 2*len(s)+2), s...)
 }
 
 func (c *Ctx) absTable(p *profile.Profile) (*wTable, string) {
@@ -357,8 +396,16 @@ func c03Check(c *Ctx, cs c03Case, full bool) (nontrivial bool) {
 			viol("purity/input-modified/"+c3diffField(Canon(p), cs.Profiles[i]), fmt.Sprintf("Merge modified input %d", i))
 		}
 	}
-	if al := aliasPaths(reachable(out), inReach); len(al) > 0 {
+	outReach := reachable(out)
+	if al := aliasPaths(outReach, inReach); len(al) > 0 {
 		viol("aliasing/"+al[0], "the result shares memory with an input (not independent of the input profiles) via: "+strings.Join(al, ", "))
+	}
+	// measured: which field kinds could have been shared in this case (cells on both sides)
+	ink, outk := inReach.cellKinds(), outReach.cellKinds()
+	for _, k := range c03AliasSurface {
+		if ink[k] && outk[k] {
+			c.Res.Hit("alias-surface:" + k)
+		}
 	}
 
 	// --- validity
@@ -598,7 +645,7 @@ func mkCase(r *Rng, g c03Gen) c03Case {
 }
 
 func runC03(c *Ctx) {
-	c.Res.Rule = "cases = lists of 1..4 valid compatible profiles: (a) random families over a shared universe of entities (variants: renumbered/colliding ids, re-mapped binaries, negated/zeroed values, one-attribute tweaks, shuffled tables, self-duplicates), (b) enumerated near-duplicate pairs — one attribute of function/line/location/mapping/label/stack changed — in three placements (two inputs with colliding ids, one input, two inputs with ASLR) x two value signs, (c) label soups over tiny byte/number alphabets and digit soups (inline chains whose line/column numbers share hex digits) — inputs on which an encoding that loses a field boundary collides, (d) header grids, (e) cancelling inputs (re-merge path), (f) incompatible inputs; non-trivial = the real Merge hit a memo table (result has fewer samples or locations than the non-zero inputs put in); distinct by canonical text of the inputs"
+	c.Res.Rule = "cases = lists of 1..4 valid compatible profiles: (a) random families over a shared universe of entities (variants: renumbered/colliding ids, re-mapped binaries, negated/zeroed values, one-attribute tweaks, shuffled tables, self-duplicates), (b) enumerated near-duplicate pairs — one attribute of function/line/location/mapping/label/stack changed — in three placements (two inputs with colliding ids, one input, two inputs with ASLR) x two value signs, (c) label soups over tiny byte/number alphabets and digit soups (inline chains whose line/column numbers share hex digits) — inputs on which an encoding that loses a field boundary collides, (d) header grids, (e) cancelling inputs (re-merge path), (f) incompatible inputs, (g) families of 2-4 files merged by the pprof binary (pprof -proto a b ...; profiles for which parsing, symbolization, demangling and frame pruning are the identity: mappings with HasFunctions, plain function names, no drop/keep frames, inputs fixed points of Write/Parse); non-trivial = the real Merge hit a memo table (result has fewer samples or locations than the non-zero inputs put in); distinct by canonical text of the inputs"
 	if c.Replay != "" {
 		var cs c03Case
 		if err := c.LoadReplay(&cs); err != nil {
@@ -607,6 +654,8 @@ func runC03(c *Ctx) {
 		}
 		if cs.Kind == "outside/nil-period-type" {
 			c03Outside(c, cs)
+		} else if strings.HasPrefix(cs.Kind, "cli/") {
+			c03CLIEval(c, cs, c03CLIExec(c, cs, 0))
 		} else {
 			c03Check(c, cs, true)
 		}
@@ -685,6 +734,14 @@ func runC03(c *Ctx) {
 			nt := c03Check(c, cs, true)
 			c.Res.Count(cs.Profiles[0], nt)
 			c.Res.Hit("kind:compact")
+		}
+	}
+	// (g) the same oracle at the command line: pprof -proto a b … > out, one process per case
+	c03CLIStream(c, r.Fork(), 160*c.Scale)
+	// the aliasing verdict must not be vacuous for any field kind
+	for _, k := range c03AliasSurface {
+		if c.Res.Dist["alias-surface:"+k] == 0 && c.Res.HarnessError == "" {
+			c.Res.HarnessError = "no generated case had memory cells of kind " + k + " both in an input and in the result: the aliasing check never looked at that field"
 		}
 	}
 }
